@@ -61,6 +61,16 @@ def run(ck: vlib.Check):
         if r[0] == 0:
             dist["raises"] += 1
             continue
+        wm = SC.wav_meta_of(b)
+        if wm:
+            rw = RC.impl_load_save(b, wm)
+            ck.evaluations += 1
+            if rw != r:
+                what = "raises" if rw[0] == 0 else "; ".join(RC.chunk_diff(bytes(r[1]), bytes(rw[1]))[:2])
+                ck.violation(f"{label}: saving the unedited map WITH sound metadata (as the MPQ save does) differs from "
+                             f"saving it without: {what}",
+                             {"kind": "wavmeta", "label": label, "input_hex": b.hex() if len(b) < 400000 else None,
+                              "wav_meta": wm}, True)
         out = bytes(r[1])
         if out == b:
             dist["identical"] += 1
@@ -107,6 +117,10 @@ def replay(path: str) -> int:
     if rp.get("input_hex"):
         b = bytes.fromhex(rp["input_hex"])
         r = RC.impl_load_save(b)
+        if rp.get("kind") == "wavmeta":
+            bad = RC.impl_load_save(b, rp["wav_meta"]) != r
+            print("still failing" if bad else "no longer failing")
+            return 1 if bad else 0
         if rp["kind"] == "identity":
             bad = r[0] == 1 and bytes(r[1]) != b
         else:
